@@ -1,4 +1,520 @@
-/- Model for area `ledger` (stub). -/
+/-
+  Model of the sequencer ledger: what a transaction / IBC packet handler / block end does to
+  balances, IBC escrow, block fees, bridge accounts, withdrawal events, authorities, the fee
+  schedule and the validator set.  Written from
+
+    checked_transaction/mod.rs (execute), checked_actions/*.rs (new / run_mutable_checks /
+    execute of every action kind), checked_actions/checked_action.rs (pay_fee),
+    checked_actions/utils.rs (fee), accounts/state_ext.rs, fees/state_ext.rs,
+    bridge/state_ext.rs, ibc/state_ext.rs, ibc/ics20_transfer.rs, authority/*,
+    app/mod.rs (execute_transaction, end_block).
+
+  Shape: every action is "checks on the current state, then a list of primitive `Effect`s";
+  `applyEffects` runs them in order and any failure discards the whole transaction (the
+  transaction's own `StateDelta` is dropped).  Addresses and assets are names (strings); an
+  asset's name is its trace-prefixed denomination.
+-/
 namespace Astria.Ledger
+
+def U128_MAX : Nat := 2 ^ 128 - 1
+def U64_MAX : Nat := 2 ^ 64 - 1
+def U32_MAX : Nat := 2 ^ 32 - 1
+
+/-! ## finite maps as association lists -/
+
+/-- Value of a `Nat`-valued map at `k`: the sum of all entries for `k` (keys are unique in
+    every reachable map, `set` keeps them so; the sum form needs no uniqueness invariant). -/
+def getN {κ : Type} [DecidableEq κ] (m : List (κ × Nat)) (k : κ) : Nat :=
+  ((m.filter (fun e => e.1 = k)).map (·.2)).sum
+
+def setN {κ : Type} [DecidableEq κ] (m : List (κ × Nat)) (k : κ) (v : Nat) : List (κ × Nat) :=
+  (k, v) :: m.filter (fun e => e.1 ≠ k)
+
+def lookup {κ α : Type} [DecidableEq κ] (m : List (κ × α)) (k : κ) : Option α :=
+  (m.find? (fun e => e.1 = k)).map (·.2)
+
+def insert {κ α : Type} [DecidableEq κ] (m : List (κ × α)) (k : κ) (v : α) : List (κ × α) :=
+  (k, v) :: m.filter (fun e => e.1 ≠ k)
+
+def erase {κ α : Type} [DecidableEq κ] (m : List (κ × α)) (k : κ) : List (κ × α) :=
+  m.filter (fun e => e.1 ≠ k)
+
+/-! ## state -/
+
+inductive Kind where
+  | transfer | rollup | ics20 | initBridge | lock | unlock | bridgeTransfer | bridgeSudo
+  deriving DecidableEq, Repr
+
+structure FeeCfg where
+  base : Nat
+  mult : Nat
+  deriving DecidableEq, Repr
+
+structure BridgeAcct where
+  rollup : Nat
+  asset : String
+  sudo : String
+  withdrawer : String
+  disabled : Bool
+  deriving DecidableEq, Repr
+
+structure Deposit where
+  bridge : String
+  rollup : Nat
+  asset : String
+  amount : Nat
+  destLen : Nat
+  index : Nat
+  deriving DecidableEq, Repr
+
+/-- ABCI events a transaction records that the checks look at: `tx.fees` and `tx.deposit`. -/
+inductive Ev where
+  | fee (asset : String) (amount pos : Nat)
+  | dep (amount : Nat)
+  deriving DecidableEq, Repr
+
+structure State where
+  postAspen : Bool
+  postBlackburn : Bool
+  bal : List ((String × String) × Nat) := []        -- (address, asset) ↦ balance
+  nonce : List (String × Nat) := []
+  esc : List ((Nat × String) × Nat) := []            -- (channel, asset) ↦ escrow
+  bridges : List (String × BridgeAcct) := []
+  wd : List ((String × String) × Nat) := []          -- (bridge, event id) ↦ rollup block number
+  sudo : String
+  ibcSudo : String
+  relayers : List String := []
+  fees : List (Kind × FeeCfg) := []
+  feeAssets : List String := []
+  knownAssets : List String := []
+  vals : List (String × Nat) := []                   -- validator key ↦ power (both formats)
+  valCount : Nat := 0
+  -- ephemeral (cleared when the block is committed)
+  blockFees : List (String × Nat) := []
+  deposits : List Deposit := []
+  valUpdates : List (String × Nat) := []
+  events : List Ev := []
+  deriving Repr
+
+inductive Err where
+  | nonce | nonceOverflow | construct | exec
+  deriving DecidableEq, Repr
+
+/-! ## primitive effects -/
+
+inductive Effect where
+  | debit (x a : String) (n : Nat)
+  | credit (x a : String) (n : Nat)
+  | escAdd (c : Nat) (a : String) (n : Nat)
+  | escSub (c : Nat) (a : String) (n : Nat)
+  | blockFee (a : String) (n : Nat) (pos : Nat)
+  | deposit (d : Deposit)
+  | recordWd (b id : String) (blk : Nat)
+  | initBridge (x : String) (rollup : Nat) (asset sudo wd : String)
+  | setBridgeSudo (b x : String)
+  | setBridgeWithdrawer (b x : String)
+  | setBridgeDisabled (b : String) (v : Bool)
+  | setSudo (x : String)
+  | setIbcSudo (x : String)
+  | addRelayer (x : String)
+  | delRelayer (x : String)
+  | setFee (k : Kind) (cfg : FeeCfg)
+  | addFeeAsset (a : String)
+  | delFeeAsset (a : String)
+  | valUpdate (key : String) (power : Nat)
+  | registerAsset (a : String)
+  deriving DecidableEq, Repr
+
+def updBridge (s : State) (b : String) (f : BridgeAcct → BridgeAcct) : State :=
+  match lookup s.bridges b with
+  | some acct => { s with bridges := insert s.bridges b (f acct) }
+  | none => s
+
+/-- One primitive state change; `none` = the Rust returns an error at this point. -/
+def applyEffect (s : State) : Effect → Option State
+  | .debit x a n =>
+    let b := getN s.bal (x, a)
+    if n ≤ b then some { s with bal := setN s.bal (x, a) (b - n) } else none
+  | .credit x a n =>
+    let b := getN s.bal (x, a)
+    if b + n ≤ U128_MAX then some { s with bal := setN s.bal (x, a) (b + n) } else none
+  | .escAdd c a n =>
+    let b := getN s.esc (c, a)
+    if b + n ≤ U128_MAX then some { s with esc := setN s.esc (c, a) (b + n) } else none
+  | .escSub c a n =>
+    let b := getN s.esc (c, a)
+    if n ≤ b then some { s with esc := setN s.esc (c, a) (b - n) } else none
+  | .blockFee a n pos =>
+    -- the `tx.fees` event is recorded before the checked addition
+    let b := getN s.blockFees a
+    if b + n ≤ U128_MAX then
+      some { s with blockFees := setN s.blockFees a (b + n), events := s.events ++ [.fee a n pos] }
+    else none
+  | .deposit d => some { s with deposits := s.deposits ++ [d], events := s.events ++ [.dep d.amount] }
+  | .recordWd b id blk => some { s with wd := setN s.wd (b, id) blk }
+  | .initBridge x rollup asset sudo wd =>
+    some { s with bridges := insert s.bridges x ⟨rollup, asset, sudo, wd, false⟩ }
+  | .setBridgeSudo b x => some (updBridge s b fun acct => { acct with sudo := x })
+  | .setBridgeWithdrawer b x => some (updBridge s b fun acct => { acct with withdrawer := x })
+  | .setBridgeDisabled b v => some (updBridge s b fun acct => { acct with disabled := v })
+  | .setSudo x => some { s with sudo := x }
+  | .setIbcSudo x => some { s with ibcSudo := x }
+  | .addRelayer x => some { s with relayers := x :: s.relayers.filter (· ≠ x) }
+  | .delRelayer x => some { s with relayers := s.relayers.filter (· ≠ x) }
+  | .setFee k cfg => some { s with fees := insert s.fees k cfg }
+  | .addFeeAsset a => some { s with feeAssets := a :: s.feeAssets.filter (· ≠ a) }
+  | .delFeeAsset a => some { s with feeAssets := s.feeAssets.filter (· ≠ a) }
+  | .valUpdate key power =>
+    let s := { s with valUpdates := insert s.valUpdates key power }
+    if !s.postAspen then some s
+    else if power = 0 then
+      some { s with vals := erase s.vals key, valCount := s.valCount - 1 }
+    else match lookup s.vals key with
+      | some _ => some { s with vals := insert s.vals key power }
+      | none => some { s with vals := insert s.vals key power,
+                              valCount := min (s.valCount + 1) U64_MAX }
+  | .registerAsset a =>
+    some (if a ∈ s.knownAssets then s else { s with knownAssets := a :: s.knownAssets })
+
+def applyEffects (s : State) : List Effect → Option State
+  | [] => some s
+  | e :: rest => match applyEffect s e with
+    | none => none
+    | some s' => applyEffects s' rest
+
+/-! ## actions -/
+
+inductive Action where
+  | transfer (to asset : String) (amount : Nat) (feeAsset : String)
+  | rollup (len : Nat) (feeAsset : String)
+  | lock (to asset : String) (amount : Nat) (feeAsset : String) (destLen : Nat)
+  | unlock (to bridge : String) (amount : Nat) (feeAsset id : String) (blk : Nat)
+  | bridgeTransfer (to bridge : String) (amount : Nat) (feeAsset id : String) (blk destLen : Nat)
+  | initBridge (rollup : Nat) (asset feeAsset : String) (sudo wd : Option String)
+  | bridgeSudo (bridge : String) (newSudo newWd : Option String) (feeAsset : String) (disable : Bool)
+  | sudoChange (new : String)
+  | ibcSudoChange (new : String)
+  | relayerAdd (x : String)
+  | relayerDel (x : String)
+  | feeChange (k : Kind) (base mult : Nat)
+  | feeAssetAdd (a : String)
+  | feeAssetDel (a : String)
+  | valUpdate (key : String) (power : Nat)
+  | ics20 (amount : Nat) (denom : String) (chan : Nat) (feeAsset : String)
+      (bridge : Option String) (id : String) (blk : Nat) (ret : String)
+  deriving DecidableEq, Repr
+
+def isBridge (s : State) (x : String) : Bool := (lookup s.bridges x).isSome
+
+def chanPrefix (c : Nat) : String := s!"transfer/channel-{c}/"
+
+/-- `trace.has_leading_port("transfer") && trace.has_leading_channel("channel-c")`. -/
+def hasLeading (asset : String) (c : Nat) : Bool := asset.startsWith (chanPrefix c)
+
+/-- `utils::fee`: `base.saturating_add(size.saturating_mul(mult))`. -/
+def satMul128 (a b : Nat) : Nat := min (a * b) U128_MAX
+def satAdd128 (a b : Nat) : Nat := min (a + b) U128_MAX
+def feeAmount (cfg : FeeCfg) (size : Nat) : Nat := satAdd128 cfg.base (satMul128 size cfg.mult)
+
+/-- `pay_fee` for an action kind that carries a fee asset. -/
+def feePlan (s : State) (k : Kind) (size : Nat) (feeAsset signer : String) (pos : Nat) :
+    Option (List Effect) :=
+  match lookup s.fees k with
+  | none => none                                         -- action disabled
+  | some cfg =>
+    if feeAsset ∉ s.feeAssets then none
+    else some [.blockFee feeAsset (feeAmount cfg size) pos, .debit signer feeAsset (feeAmount cfg size)]
+
+def assetDisplayLen (a : String) : Nat := a.length
+
+/-- The checks that are only made when the transaction is constructed (`…::new`). -/
+def immutableOk (s : State) : Action → Bool
+  | .rollup len _ => len > 0
+  | .lock to asset _ _ _ =>
+    match lookup s.bridges to with
+    | some b => b.asset = asset
+    | none => false
+  | .unlock _ bridge amount _ id blk => amount > 0 && id ≠ "" && blk > 0 && isBridge s bridge
+  | .bridgeTransfer to bridge amount _ id blk destLen =>
+    amount > 0 && id ≠ "" && blk > 0 && destLen > 0 &&
+    match lookup s.bridges bridge, lookup s.bridges to with
+    | some b, some t => t.asset = b.asset
+    | _, _ => false
+  | .ics20 amount _ _ _ _ _ _ _ => amount > 0
+  | _ => true
+
+/-- `run_mutable_checks`: evaluated at construction and again in `execute`. -/
+def mutableOk (s : State) (signer : String) : Action → Bool
+  | .transfer _ _ _ _ => !isBridge s signer
+  | .rollup _ _ => true
+  | .lock to _ _ _ _ =>
+    !isBridge s signer && match lookup s.bridges to with
+      | some b => !b.disabled
+      | none => true
+  | .unlock to bridge _ _ id _ =>
+    !isBridge s to && match lookup s.bridges bridge with
+      | some b => b.withdrawer = signer && (lookup s.wd (bridge, id)).isNone
+      | none => false
+  | .bridgeTransfer to bridge _ _ id _ _ =>
+    (match lookup s.bridges bridge with
+      | some b => b.withdrawer = signer && (lookup s.wd (bridge, id)).isNone
+      | none => false) &&
+    (match lookup s.bridges to with
+      | some t => !t.disabled
+      | none => true)
+  | .initBridge _ _ _ _ _ => !isBridge s signer
+  | .bridgeSudo bridge _ _ _ disable =>
+    match lookup s.bridges bridge with
+    | some b => (s.postBlackburn || !disable) && b.sudo = signer
+    | none => false
+  | .sudoChange _ => s.sudo = signer
+  | .ibcSudoChange _ => s.sudo = signer
+  | .relayerAdd x => s.ibcSudo = signer && x ∉ s.relayers
+  | .relayerDel x => s.ibcSudo = signer && x ∈ s.relayers
+  | .feeChange _ _ _ => s.sudo = signer
+  | .feeAssetAdd a => s.sudo = signer && a ∉ s.feeAssets
+  | .feeAssetDel a => s.sudo = signer && a ∈ s.feeAssets && s.feeAssets.length > 1
+  | .valUpdate key power =>
+    s.sudo = signer &&
+    (power ≠ 0 ||
+      (if s.postAspen then s.valCount > 1 && (lookup s.vals key).isSome
+       else (lookup s.vals key).isSome && s.vals.length ≠ 1))
+  | .ics20 _ _ _ _ bridge id _ _ =>
+    match bridge with
+    | some b => (match lookup s.bridges b with
+        | some acct => acct.withdrawer = signer && (lookup s.wd (b, id)).isNone
+        | none => false)
+    | none => !isBridge s signer
+
+/-- What `execute` does after its mutable checks passed. -/
+def actionEffects (s : State) (signer : String) (pos : Nat) : Action → List Effect
+  | .transfer to asset amount _ => [.debit signer asset amount, .credit to asset amount]
+  | .rollup _ _ => []
+  | .lock to asset amount _ destLen =>
+    let rollup := match lookup s.bridges to with | some b => b.rollup | none => 0
+    [.debit signer asset amount, .credit to asset amount,
+     .deposit ⟨to, rollup, asset, amount, destLen, pos⟩]
+  | .unlock to bridge amount _ id blk =>
+    let asset := match lookup s.bridges bridge with | some b => b.asset | none => ""
+    [.debit bridge asset amount, .credit to asset amount, .recordWd bridge id blk]
+  | .bridgeTransfer to bridge amount _ id blk destLen =>
+    let asset := match lookup s.bridges bridge with | some b => b.asset | none => ""
+    let rollup := match lookup s.bridges to with | some b => b.rollup | none => 0
+    [.debit bridge asset amount, .credit to asset amount,
+     .deposit ⟨to, rollup, asset, amount, destLen, pos⟩, .recordWd bridge id blk]
+  | .initBridge rollup asset _ sudo wd =>
+    [.initBridge signer rollup asset (sudo.getD signer) (wd.getD signer)]
+  | .bridgeSudo bridge newSudo newWd _ disable =>
+    (match newSudo with | some x => [.setBridgeSudo bridge x] | none => []) ++
+    (match newWd with | some x => [.setBridgeWithdrawer bridge x] | none => []) ++
+    (if s.postBlackburn then [.setBridgeDisabled bridge disable] else [])
+  | .sudoChange new => [.setSudo new]
+  | .ibcSudoChange new => [.setIbcSudo new]
+  | .relayerAdd x => [.addRelayer x]
+  | .relayerDel x => [.delRelayer x]
+  | .feeChange k base mult => [.setFee k ⟨base, mult⟩]
+  | .feeAssetAdd a => [.addFeeAsset a]
+  | .feeAssetDel a => [.delFeeAsset a]
+  | .valUpdate key power => [.valUpdate key power]
+  | .ics20 amount denom chan _ bridge id blk _ =>
+    let from_ := bridge.getD signer
+    (match bridge with | some b => [.recordWd b id blk] | none => []) ++
+    [.debit from_ denom amount] ++
+    (if !hasLeading denom chan then [.escAdd chan denom amount] else [])
+
+/-- Fee kind, variable fee component and fee asset of the actions that pay a fee. -/
+def feeInfo : Action → Option (Kind × Nat × String)
+  | .transfer _ _ _ fa => some (.transfer, 0, fa)
+  | .rollup len fa => some (.rollup, len, fa)
+  | .lock _ asset _ fa destLen => some (.lock, assetDisplayLen asset + destLen + 16, fa)
+  | .unlock _ _ _ fa _ _ => some (.unlock, 0, fa)
+  | .bridgeTransfer _ _ _ fa _ _ _ => some (.bridgeTransfer, 0, fa)
+  | .initBridge _ _ fa _ _ => some (.initBridge, 0, fa)
+  | .bridgeSudo _ _ _ fa _ => some (.bridgeSudo, 0, fa)
+  | .ics20 _ _ _ fa _ _ _ _ => some (.ics20, 0, fa)
+  | _ => none
+
+/-- `CheckedAction::pay_fees_and_execute`: pay the fee, re-run the mutable checks, execute. -/
+def execAction (s : State) (signer : String) (pos : Nat) (a : Action) : Option State :=
+  let feeFx := match feeInfo a with
+    | some (k, size, fa) => feePlan s k size fa signer pos
+    | none => some []
+  match feeFx with
+  | none => none
+  | some fx =>
+    match applyEffects s fx with
+    | none => none
+    | some s1 =>
+      if !mutableOk s1 signer a then none
+      else applyEffects s1 (actionEffects s1 signer pos a)
+
+def execActions (s : State) (signer : String) : Nat → List Action → Option State
+  | _, [] => some s
+  | pos, a :: rest => match execAction s signer pos a with
+    | none => none
+    | some s' => execActions s' signer (pos + 1) rest
+
+structure Tx where
+  signer : String
+  nonce : Nat
+  actions : List Action
+  deriving DecidableEq, Repr
+
+/-- `Action::group` (1 = unbundleable sudo … 4 = bundleable general). -/
+def group : Action → Nat
+  | .sudoChange _ | .ibcSudoChange _ => 1
+  | .relayerAdd _ | .relayerDel _ | .feeChange _ _ _ | .feeAssetAdd _ | .feeAssetDel _ => 2
+  | .initBridge _ _ _ _ _ | .bridgeSudo _ _ _ _ _ => 3
+  | _ => 4
+
+/-- `Actions::try_from_list_of_actions`: non-empty, one group, only bundleable groups may hold
+    more than one action. -/
+def groupsOk : List Action → Bool
+  | [] => false
+  | a :: rest =>
+    (rest.isEmpty || group a = 2 || group a = 4) && rest.all fun b => group b = group a
+
+/-- `CheckedTransaction::new`: well-formed body, nonce not already used, every action's
+    construction checks. -/
+def construct (s : State) (tx : Tx) : Bool :=
+  groupsOk tx.actions && tx.nonce ≥ getN s.nonce tx.signer &&
+  tx.actions.all fun a => immutableOk s a && mutableOk s tx.signer a
+
+/-- `App::execute_transaction` = `CheckedTransaction::execute` inside its own delta: on any
+    error the state is the one before the transaction. -/
+def execTx (s : State) (tx : Tx) : Except Err State :=
+  let cur := getN s.nonce tx.signer
+  if cur ≠ tx.nonce then .error .nonce
+  else if cur + 1 > U32_MAX then .error .nonceOverflow
+  else
+    let s1 := { s with nonce := setN s.nonce tx.signer (cur + 1) }
+    match execActions s1 tx.signer 0 tx.actions with
+    | none => .error .exec
+    | some s' => .ok s'
+
+/-! ## ICS20 packet handlers -/
+
+inductive Memo where
+  | empty | deposit | depositEmpty | fromRollup | bad
+  deriving DecidableEq, Repr
+
+structure RecvPacket where
+  dstChan : Nat
+  srcChan : Nat
+  denom : String
+  amount : Nat
+  receiver : Option String      -- none = unparsable address
+  memo : Memo
+  deriving DecidableEq, Repr
+
+def depositDestLen : Nat := 11   -- "rollup-dest"
+def refundDestLen : Nat := 13    -- "rollup-return"
+
+/-- The effect list of `receive_tokens`, in the order of the Rust code; `none` = an error
+    before anything was written. -/
+def recvPlan (s : State) (p : RecvPacket) : Option (List Effect) :=
+  match p.receiver with
+  | none => none
+  | some rcpt =>
+    let isSource := hasLeading p.denom p.srcChan
+    let asset := if isSource then (p.denom.drop (chanPrefix p.srcChan).length).toString
+                 else chanPrefix p.dstChan ++ p.denom
+    if s.postBlackburn && asset ∉ s.feeAssets then none
+    else
+      let dep : Option (List Effect) := match lookup s.bridges rcpt with
+        | none => some []
+        | some b =>
+          if b.disabled then none
+          else if p.memo ≠ .deposit then none
+          else if b.asset ≠ asset then none
+          else some [.deposit ⟨rcpt, b.rollup, asset, p.amount, depositDestLen, 0⟩]
+      match dep with
+      | none => none
+      | some depFx =>
+        some (depFx ++
+          (if isSource then [.escSub p.dstChan asset p.amount] else [.registerAsset asset]) ++
+          [.credit rcpt asset p.amount])
+
+/-- `recv_packet_execute` (as repaired): `receive_tokens` runs in a nested delta which is
+    applied only on success; the error is turned into an error acknowledgement. Returns
+    (acknowledged successfully?, state). -/
+def recvPacket (s : State) (p : RecvPacket) : Bool × State :=
+  match recvPlan s p with
+  | none => (false, s)
+  | some fx => match applyEffects s fx with
+    | none => (false, s)
+    | some s' => (true, s')
+
+/-- As in the pinned source: no nested delta — the effects before the failing one survive
+    (DESIGN §7 F6). -/
+def applyEffectsPartial (s : State) : List Effect → Bool × State
+  | [] => (true, s)
+  | e :: rest => match applyEffect s e with
+    | none => (false, s)
+    | some s' => applyEffectsPartial s' rest
+
+def recvPacketOriginal (s : State) (p : RecvPacket) : Bool × State :=
+  match recvPlan s p with
+  | none => (false, s)
+  | some fx => applyEffectsPartial s fx
+
+structure RefundPacket where
+  srcChan : Nat
+  denom : String
+  amount : Nat
+  sender : Option String
+  memo : Memo
+  deriving DecidableEq, Repr
+
+/-- `refund_tokens` (timeout, or acknowledgement carrying an error). -/
+def refundPlan (s : State) (p : RefundPacket) : Option (List Effect) :=
+  match p.sender with
+  | none => none
+  | some rcpt =>
+    let dep : Option (List Effect) :=
+      if p.memo = .fromRollup then
+        match lookup s.bridges rcpt with
+        | none => none
+        | some b => if b.asset ≠ p.denom then none
+                    else some [.deposit ⟨rcpt, b.rollup, p.denom, p.amount, refundDestLen, 0⟩]
+      else some []
+    match dep with
+    | none => none
+    | some depFx =>
+      some (depFx ++
+        (if !hasLeading p.denom p.srcChan then [.escSub p.srcChan p.denom p.amount] else []) ++
+        [.credit rcpt p.denom p.amount])
+
+/-- `timeout_packet_execute` / `acknowledge_packet_execute` with a failed acknowledgement: an
+    error fails the surrounding action, whose delta is dropped. -/
+def refundPacket (s : State) (p : RefundPacket) : Except Err State :=
+  match refundPlan s p with
+  | none => .error .exec
+  | some fx => match applyEffects s fx with
+    | none => .error .exec
+    | some s' => .ok s'
+
+/-! ## end of block -/
+
+def payFees (s : State) : List (String × Nat) → Option State
+  | [] => some s
+  | (a, n) :: rest => match applyEffect s (.credit s.sudo a n) with
+    | none => none
+    | some s' => payFees s' rest
+
+def applyValUpdates (vals : List (String × Nat)) : List (String × Nat) → List (String × Nat)
+  | [] => vals
+  | (k, p) :: rest => applyValUpdates (if p = 0 then erase vals k else insert vals k p) rest
+
+/-- `App::end_block` followed by commit. Returns the validator updates handed to CometBFT and
+    whether `end_block` succeeded; the ephemeral per-block data is cleared by the commit. -/
+def endBlock (s : State) : Bool × List (String × Nat) × State :=
+  let updates := s.valUpdates
+  -- pre-Aspen: AuthorityComponent::end_block applies the block's updates to the stored set
+  let s1 := if s.postAspen then s else { s with vals := applyValUpdates s.vals updates }
+  let s2 := { s1 with valUpdates := [] }
+  match payFees s2 s2.blockFees with
+  | some s3 => (true, updates, { s3 with blockFees := [], deposits := [] })
+  | none => (false, [], { s with blockFees := [], deposits := [] })
 
 end Astria.Ledger
